@@ -267,7 +267,7 @@ Lemma TI_push g node chain comps nn : TI g (node :: chain) comps ->
 Proof.
   intros [T1 T2 T3 T4 T5 T6 T7] P Hnin. constructor; try assumption.
   - now constructor.
-  - intros x [<-|H]; [|now apply T5]. apply (T3 node x); [apply T5; now left | apply P].
+  - intros x [<-|H]; [|now apply T5]. apply (T3 node nn); [apply T5; now left | apply P].
   - cbn [cpairs]. split; [exact P|]. exact T6.
 Qed.
 
@@ -293,10 +293,10 @@ Proof.
   - apply NoDup_akeys_app_fresh; [now apply NoDup_aremove, NoDup_aremove|].
     intros H. apply akeys_aremove_In, akeys_aremove_In, Hsz in H. lia.
   - intros x H. apply keys_mg_sizes in H; [|exact T1]. apply live_mg; [exact HG|].
-    destruct H as [(H & Xa & Xb)|->]; [right; split; [now apply T2 | tauto] | now left].
+    destruct H as [(H & Xa & Xb)| -> ]; [right; split; [now apply T2 | tauto] | now left].
   - intros x y H Hy. apply keys_mg_sizes; [exact T1|]. apply keys_mg_sizes in H; [|exact T1].
     destruct (Nat.eq_dec y (ag_next g)) as [->|Yn]; [now right|]. left.
-    destruct H as [(H & Xa & Xb)|->].
+    destruct H as [(H & Xa & Xb)| -> ].
     + assert (Xn : x <> ag_next g) by (apply Hsz in H; lia).
       destruct (isnb_mg_old g a b ra rb s1 s2 x y HG Ea Eb Xa Xb Xn Yn Hy) as (Ya & Yb & Hy').
       split; [now apply (T3 x y) | tauto].
@@ -316,3 +316,183 @@ Proof.
     split; intros ->; [apply Hna; now right | tauto].
   - left. intros E. apply app_eq_nil in E. destruct E; discriminate.
 Qed.
+
+(** * One step: never fails, and the potential decreases *)
+Definition TIs (st : Paris.pstate) : Prop := TI (p_ag st) (p_chain st) (p_comps st).
+
+Lemma ag_merge_ok g a b ra rb s1 s2 :
+  alookup a (ag_nb g) = Some ra -> alookup b (ag_nb g) = Some rb ->
+  alookup a (ag_size g) = Some s1 -> alookup b (ag_size g) = Some s2 -> a <> b ->
+  ag_merge exact g a b = Ok (mg g a b ra rb s1 s2).
+Proof.
+  intros E1 E2 E3 E4 Hne. unfold ag_merge. rewrite E1, E2, E3, E4. apply Nat.eqb_neq in Hne. rewrite Hne. reflexivity.
+Qed.
+
+Lemma chain_le g chain comps : TI g chain comps -> length chain <= length (ag_size g).
+Proof.
+  intros HT. rewrite <- (map_length fst (ag_size g)). apply NoDup_incl_length; [exact (ti_cnd _ _ _ HT)|].
+  intros x H. exact (ti_cin _ _ _ HT x H).
+Qed.
+
+Lemma push_fresh g node last chain' nn : GI g -> NoDup (node :: last :: chain') ->
+  cpairs g (node :: last :: chain') -> pairT g node nn -> In nn chain' -> False.
+Proof.
+  intros HG Hnd HC PT Hin.
+  destruct (In_nth chain' nn 0 Hin) as (i & Hi & Hnth).
+  set (c := node :: last :: chain') in *.
+  apply (no_cycle g (fun k => nth k c 0) (i + 3) HG).
+  - lia.
+  - intros k Hk. apply cpairs_nth; [exact HC|]. unfold c. cbn [length]. lia.
+  - replace (i + 3 - 1) with (S (S i)) by lia. unfold c. cbn [nth]. rewrite Hnth. exact PT.
+  - intros k j Hk Hj E. apply (proj1 (NoDup_nth c 0) Hnd); try exact E; unfold c; cbn [length]; lia.
+Qed.
+
+Lemma step_total n st : SIs n st -> TIs st ->
+  match paris_step exact false st with
+  | Running st' => TIs st' /\
+      3 * length (ag_size (p_ag st')) + length (p_chain st) + 1 <=
+      3 * length (ag_size (p_ag st)) + length (p_chain st')
+  | Finished st' => st' = st /\ p_comps st <> []
+  | Failed _ => False
+  end.
+Proof.
+  destruct st as [g chain rows comps pnn hgt mar ties]. unfold SIs, TIs, paris_step. cbv zeta.
+  cbn [p_ag p_chain p_rows p_comps p_nn p_hgt p_margin p_ties]. intros HS HT.
+  pose proof (si_g _ _ _ _ _ HS) as HG.
+  destruct chain as [|node chain].
+  - destruct (ag_size g) as [|[node sz] t] eqn:Es.
+    + split; [reflexivity|]. destruct (ti_ne _ _ _ HT) as [H|H]; [congruence | exact H].
+    + cbn [p_ag p_chain p_comps]. split.
+      * apply TI_start; [exact HT | rewrite Es; now left].
+      * rewrite ?Es. cbn [length]. lia.
+  - assert (Hin : In node (akeys (ag_size g))) by (apply (ti_cin _ _ _ HT); now left).
+    pose proof (ti_live _ _ _ HT node Hin) as Lnode. unfold live in Lnode.
+    destruct (alookup node (ag_nb g)) as [row|] eqn:Er; [|congruence].
+    destruct (In_key_alookup node _ Hin) as [s Esz].
+    destruct (filter (fun c => negb (Nat.eqb c node)) (akeys row)) as [|c0 nbrs] eqn:En.
+    + rewrite Esz. cbn [p_ag p_chain p_comps]. split.
+      * apply TI_comp; [exact HG | exact HT |]. intros c Hc. apply (nbrs_isnb _ node row c Er) in Hc.
+        rewrite En in Hc. destruct Hc.
+      * cbn [ag_size length]. pose proof (aremove_length _ _ _ Esz). lia.
+    + destruct (nn_search _ _) as [nn mx] eqn:Es.
+      rewrite <- En in Es. pose proof Es as Es0.
+      apply (search_g g node row) in Es; [|exact HG | exact Er | rewrite En; discriminate].
+      destruct Es as (Hnn & m & -> & Hm & Hmax).
+      assert (PT : pairT g node nn).
+      { split; [exact Hnn|]. split.
+        - intros y Hy. rewrite <- Hm. now apply Hmax.
+        - intros y Hy Hq. exact (search_g_tie g node row pnn nn m HG Er Es0 Hm y Hy Hq). }
+      assert (Hne : node <> nn) by (apply Hnn).
+      destruct chain as [|last chain'].
+      * cbn [p_ag p_chain p_comps]. split.
+        -- apply TI_push; [exact HT | exact PT |]. intros [E|[]]. congruence.
+        -- cbn [length]. lia.
+      * destruct (Nat.eqb last nn) eqn:El.
+        -- apply Nat.eqb_eq in El. subst last.
+           assert (Hin2 : In nn (akeys (ag_size g))) by (apply (ti_cin _ _ _ HT); right; now left).
+           destruct (In_key_alookup nn _ Hin2) as [s2 Esz2]. rewrite Esz, Esz2.
+           pose proof (ti_live _ _ _ HT nn Hin2) as Lnn. unfold live in Lnn.
+           destruct (alookup nn (ag_nb g)) as [rb|] eqn:Eb; [|congruence].
+           rewrite (ag_merge_ok g node nn row rb s s2 Er Eb Esz Esz2 Hne).
+           cbn [p_ag p_chain p_comps]. split.
+           ++ apply (TI_merge n g node nn chain' rows comps); assumption.
+           ++ cbn [mg ag_size]. rewrite app_length. cbn [length].
+              pose proof (aremove_length _ _ _ Esz) as L1.
+              assert (Esz2' : alookup nn (aremove node (ag_size g)) = Some s2)
+                by (rewrite alookup_aremove_neq by congruence; exact Esz2).
+              pose proof (aremove_length _ _ _ Esz2') as L2. lia.
+        -- apply Nat.eqb_neq in El. cbn [p_ag p_chain p_comps]. split.
+           ++ apply TI_push; [exact HT | exact PT |]. intros [E|[E|Hdeep]]; [congruence | congruence |].
+              exact (push_fresh g node last chain' nn HG (ti_cnd _ _ _ HT) (ti_pairs _ _ _ HT) PT Hdeep).
+           ++ cbn [length]. lia.
+Qed.
+
+(** * The run *)
+Lemma run_total n : forall fuel st, SIs n st -> TIs st ->
+  3 * length (ag_size (p_ag st)) < fuel + length (p_chain st) ->
+  exists st', paris_run exact false fuel st = Some (Ok st') /\ p_comps st' <> [].
+Proof.
+  induction fuel as [|f IH]; intros st HS HT Hf.
+  - pose proof (chain_le _ _ _ HT). lia.
+  - cbn [paris_run]. pose proof (step_total n st HS HT) as Hst.
+    destruct (paris_step exact false st) as [st1|st1|e] eqn:E.
+    + destruct Hst as [HT1 Hm]. apply IH; [now apply (step_SI n st) | exact HT1 | lia].
+    + destruct Hst as [-> Hc]. exists st. split; [reflexivity | exact Hc].
+    + destruct Hst.
+Qed.
+
+Lemma TI_init n G wout win : 1 <= n -> graph_ok n G -> weights_ok n wout -> weights_ok n win ->
+  TIs (paris_init (ag_init exact n G wout win)).
+Proof.
+  intros Hn HGr Ho Hi. pose proof (GI_init n G wout win HGr Ho Hi) as HG.
+  unfold TIs, paris_init. cbn [p_ag p_chain p_comps]. constructor.
+  - unfold ag_init. cbn [ag_size]. rewrite akeys_map_seq. apply seq_NoDup.
+  - intros x H. unfold ag_init in H. cbn [ag_size] in H. rewrite akeys_map_seq in H. apply in_seq in H.
+    unfold live, ag_init. cbn [ag_nb]. rewrite alookup_map_seq_lt by lia. discriminate.
+  - intros x y H Hy. destruct (isnb_live _ x y HG Hy) as [_ Ly]. apply live_init in Ly.
+    unfold ag_init. cbn [ag_size]. rewrite akeys_map_seq. apply in_seq. lia.
+  - constructor.
+  - intros x [].
+  - exact I.
+  - left. unfold ag_init. cbn [ag_size]. destruct n; [lia|]. cbn. discriminate.
+Qed.
+
+(** The loop itself ends normally within the fuel, with at least one connected component recorded. *)
+Theorem paris_run_total : forall n G wout win,
+  1 <= n -> graph_ok n G -> weights_ok n wout -> weights_ok n win ->
+  exists st, paris_run exact false (paris_fuel n) (paris_init (ag_init exact n G wout win)) = Some (Ok st) /\
+             p_comps st <> [].
+Proof.
+  intros n G wout win Hn HG Ho Hi. apply (run_total n).
+  - now apply SI_init.
+  - now apply TI_init.
+  - unfold paris_fuel, paris_init, ag_init. cbn [p_ag p_chain ag_size length]. rewrite map_length, seq_length. lia.
+Qed.
+
+(** * The theorem *)
+Theorem paris_total : forall hinf n G wout win,
+  1 <= n -> graph_ok n G -> weights_ok n wout -> weights_ok n win ->
+  exists D m t, paris_core exact false hinf n G wout win = Some (Ok (D, m, t)).
+Proof.
+  intros hinf n G wout win Hn HG Ho Hi. unfold paris_core.
+  destruct (paris_run_total n G wout win Hn HG Ho Hi) as (st & Erun & Hc).
+  rewrite Erun. unfold paris_finish. destruct (rev (p_comps st)) as [|[node cs] rest] eqn:Er.
+  - exfalso. apply Hc. rewrite <- (rev_involutive (p_comps st)), Er. reflexivity.
+  - eexists _, _, _. reflexivity.
+Qed.
+
+(** Totality and reducibility together: on admissible inputs the exact model returns a dendrogram, and its
+    heights are monotone as soon as [hinf] bounds them. *)
+Corollary paris_total_reducible : forall hinf n G wout win,
+  1 <= n -> graph_ok n G -> weights_ok n wout -> weights_ok n win ->
+  exists D m t, paris_core exact false hinf n G wout win = Some (Ok (D, m, t)) /\
+                ((forall r, In r D -> (r_height r <= hinf)%Q) -> hmono n D = true).
+Proof.
+  intros hinf n G wout win Hn HG Ho Hi.
+  destruct (paris_total hinf n G wout win Hn HG Ho Hi) as (D & m & t & E).
+  exists D, m, t. split; [exact E|]. intros Hinf. exact (paris_reducible hinf n G wout win D m t HG Ho Hi E Hinf).
+Qed.
+
+(** * Non-vacuity: the hypotheses hold on the 6-node example of ParisReducible, and the conclusion is the
+    computed one. *)
+Example paris_total_example_hyps : 1 <= 6 /\ graph_ok 6 ex_G /\ weights_ok 6 ex_w.
+Proof. split; [lia|]. split; apply paris_reducible_example_hyps. Qed.
+
+Example paris_total_example :
+  exists D m t, paris_core exact false (1000#1)%Q 6 ex_G ex_w ex_w = Some (Ok (D, m, t)).
+Proof.
+  destruct paris_total_example_hyps as (Hn & HG & Hw). now apply paris_total.
+Qed.
+
+Example paris_total_example_computed :
+  match paris_core exact false (1000#1)%Q 6 ex_G ex_w ex_w with
+  | Some (Ok (D, _, _)) => length D = 5
+  | _ => False
+  end.
+Proof. vm_compute. reflexivity. Qed.
+
+Print Assumptions paris_total.
+Print Assumptions paris_run_total.
+Print Assumptions paris_total_reducible.
+Print Assumptions no_cycle.
+Print Assumptions nn_search_tie.
